@@ -4,13 +4,14 @@
 (* functions, saturating 32-bit arithmetic (TLC integers are 32-bit and   *)
 (* trap on overflow), the frame alphabet, RFC 9113 default settings.      *)
 (***************************************************************************)
-EXTENDS Naturals, Integers, Sequences, FiniteSets
+EXTENDS Naturals, Integers, Sequences, FiniteSets, TLC
 
 MaxI == 2147483647
 
 \* partial functions used as maps keyed by stream id / tag
 Get(f, k, d) == IF k \in DOMAIN f THEN f[k] ELSE d
-Put(f, k, v) == [x \in (DOMAIN f) \cup {k} |-> IF x = k THEN v ELSE f[x]]
+\* (EXCEPT and @@ are implemented natively by TLC: maps with thousands of keys stay cheap)
+Put(f, k, v) == IF k \in DOMAIN f THEN [f EXCEPT ![k] = v] ELSE f @@ (k :> v)
 EmptyMap == [x \in {} |-> 0]
 
 \* saturating addition on [-MaxI, MaxI]
